@@ -83,3 +83,19 @@ fn kf_d16_failed_batch_append_applies_a_prefix() -> Result<(), io::Error> {
     assert_eq!(got.len(), 2, "D16: expected the valid prefix to have been applied although the call returned Err, got {:?}", got);
     Ok(())
 }
+
+#[test]
+fn kf_d13_obsolete_chunk_is_never_removed() -> Result<(), io::Error> {
+    let mut ctx = TestContext::new()?;
+    ctx.config.chunk_max_records = Some(4);
+    let mut rl = ctx.new_raft_log()?;
+    rl.append([((5, 0), ss("a0")), ((5, 1), ss("a1")), ((5, 2), ss("a2"))])?; // chunk 0 closes, recorded last = (5,2)
+    rl.truncate(1)?;
+    rl.append([((5, 1), ss("b1"))])?;
+    rl.purge((5, 1))?; // everything is purged now
+    blocking_flush(&mut rl)?;
+    rl.wait_worker_idle();
+    let closed = rl.stat().closed_chunks.iter().map(|c| c.global_start).collect::<Vec<_>>();
+    assert!(closed.contains(&0), "D13: expected the obsolete first chunk to be still present after purge+flush+idle, closed chunks: {:?}", closed);
+    Ok(())
+}
